@@ -46,6 +46,27 @@ B = [
     ("explicit_select_columns_in_count", [("interface.py",
       "                SELECT count() FROM features\n                WHERE featuretype = ?",
       "                SELECT count(id) FROM features\n                WHERE featuretype = ?")]),
+    ("relation_queries_materialised", [("interface.py",
+      "        query = query.replace(\"SELECT\", \"SELECT DISTINCT\")\n        for i in self._execute(query, args):\n            yield self._feature_returner(**i)",
+      "        query = query.replace(\"SELECT\", \"SELECT DISTINCT\")\n        for i in self._execute(query, args).fetchall():\n            yield self._feature_returner(**i)")]),
+    ("all_features_fetchmany_own_cursor", [("interface.py",
+      "        for i in self._execute(query, args):\n            yield self._feature_returner(**i)\n\n    def featuretypes(self):",
+      "        cur = self._execute(query, args)\n        while True:\n            rows = cur.fetchmany(50)\n            if not rows:\n                break\n            for i in rows:\n                yield self._feature_returner(**i)\n\n    def featuretypes(self):")]),
+    ("delete_rolls_back_on_error", [("interface.py",
+      "        for feature in features:\n            if isinstance(feature, str):\n                _id = feature\n            else:\n                _id = feature.id\n            c.execute(query1, (_id,))\n            c.execute(query2, (_id, _id))\n        self.conn.commit()\n        return self\n",
+      "        try:\n            for feature in features:\n                if isinstance(feature, str):\n                    _id = feature\n                else:\n                    _id = feature.id\n                c.execute(query1, (_id,))\n                c.execute(query2, (_id, _id))\n        except Exception:\n            self.conn.rollback()\n            raise\n        self.conn.commit()\n        return self\n")]),
+    ("gff_relations_tempfile_in_private_dir", [("create.py",
+      "        tmp = tempfile.NamedTemporaryFile(delete=False, suffix=suffix).name\n        with open(tmp, \"w\") as fout:\n\n            # Here we look",
+      "        _tmpdir = tempfile.mkdtemp(prefix=\"gffutils_\")\n        tmp = os.path.join(_tmpdir, \"relations\" + suffix)\n        with open(tmp, \"w\") as fout:\n\n            # Here we look"),
+      ("create.py",
+       "        self.conn.commit()\n\n        if not self._keep_tempfiles:\n            os.unlink(fout.name)\n",
+       "        self.conn.commit()\n\n        if not self._keep_tempfiles:\n            os.unlink(fout.name)\n            os.rmdir(_tmpdir)\n")]),
+    ("open_runs_analyze_when_missing", [("interface.py",
+      "        if not self._analyzed():\n            warnings.warn(",
+      "        if not self._analyzed():\n            self.analyze()\n        if False:\n            warnings.warn(")]),
+    ("gff_populate_and_relations_one_transaction", [("create.py",
+      "            raise EmptyInputError(\"No lines parsed -- was an empty file provided?\")\n\n        self.conn.commit()\n",
+      "            raise EmptyInputError(\"No lines parsed -- was an empty file provided?\")\n\n")]),
     ("backup_via_copyfile_then_copystat", [("interface.py",
       "        if make_backup:\n            if isinstance(self.dbfn, str):\n                shutil.copy2(self.dbfn, self.dbfn + \".bak\")\n\n        # get iterator-specific kwargs",
       "        if make_backup:\n            if isinstance(self.dbfn, str):\n                shutil.copyfile(self.dbfn, self.dbfn + \".bak\")\n                shutil.copystat(self.dbfn, self.dbfn + \".bak\")\n\n        # get iterator-specific kwargs")]),
